@@ -598,7 +598,9 @@ impl BranchNodeBuilder {
 
             let base_prefix_start = BRANCH_NODE_HEADER_SIZE + base.n() as usize * 2;
             let start = base_prefix_start + bytes_to_skip;
-            let byte_len = (((bit_prefix_len_difference as usize) + 7) / 8).next_multiple_of(8);
+            // the slice must hold the bits skipped in the first byte as well.
+            let byte_len = ((prefix_bit_start + bit_prefix_len_difference as usize + 7) / 8)
+                .next_multiple_of(8);
 
             Some((start, start + byte_len, prefix_bit_start))
         } else {
